@@ -494,9 +494,13 @@ func (x *lbExt) checkSubConnsAtQuiescence() {
 				// of a READY SubConn is one to an address of its current list,
 				// dialled before READY was reported (an address may have
 				// belonged to another SubConn earlier)
+				// ... or to any address the SubConn was ever given: grpc-go keeps
+				// the live connection of a health-checked SubConn in
+				// TRANSIENT_FAILURE when UpdateAddresses drops its address
+				// (recorded oddity, outside the C30/C32 statements)
 				dialled, open := false, false
 				for _, d := range x.w.net.Dials {
-					if d.Result == "ok" && d.Seq > s.createdSeq && d.Seq < last && lbHasAddr(s.cur(), d.Addr) {
+					if d.Result == "ok" && d.Seq > s.createdSeq && d.Seq < last && s.had(d.Addr, last) {
 						dialled = true
 						if !x.w.net.Pairs[d.Conn].Closed {
 							open = true
@@ -504,7 +508,7 @@ func (x *lbExt) checkSubConnsAtQuiescence() {
 					}
 				}
 				if dialled && !open {
-					e.Violate("sc_disconnect_not_reported", "sc%d: last reported state is READY but every connection to %s is closed", s.id, s.addr)
+					e.Violate("sc_disconnect_not_reported", "sc%d: last reported state is READY but every connection to an address it was ever given is closed", s.id)
 				} else if dialled {
 					e.Probe("sc_ready_at_quiescence")
 				}
